@@ -339,7 +339,7 @@ func (segstore *SegStore) GetBaseDir() string {
 
 // For some types we use a bloom index and for others we use range indices. If
 // a column has both, we should convert all the values to one type.
-func consolidateColumnTypes(wipBlock *WipBlock, segmentKey string) error {
+func consolidateColumnTypes(wipBlock *WipBlock, segmentKey string, allSeenColumnSizes map[string]uint32) error {
 	for colName := range wipBlock.columnsInBlock {
 		// Check if this column has both a bloom and a range index.
 		_, ok1 := wipBlock.columnBlooms[colName]
@@ -361,6 +361,10 @@ func consolidateColumnTypes(wipBlock *WipBlock, segmentKey string) error {
 				log.Errorf("consolidateColumnTypes: error converting column %v to strings; err=%v", colName, err)
 				return err
 			}
+
+			// The records were rewritten with other lengths than the ones
+			// that were tracked while they were added.
+			allSeenColumnSizes[colName] = sutils.INCONSISTENT_CVAL_SIZE
 		}
 	}
 
@@ -530,7 +534,7 @@ func (segstore *SegStore) AppendWipToSegfile(streamid string, forceRotate bool, 
 	// If there's columns that had both strings and numbers in them, we need to
 	// try converting them all to numbers, but if that doesn't work we'll
 	// convert them all to strings.
-	err := consolidateColumnTypes(&segstore.wipBlock, segstore.SegmentKey)
+	err := consolidateColumnTypes(&segstore.wipBlock, segstore.SegmentKey, segstore.AllSeenColumnSizes)
 	if err != nil {
 		log.Errorf("AppendWipToSegfile: error consolidating column types; err=%v", err)
 		return err
